@@ -48,7 +48,8 @@ func parseRFC3339Timestamp(timeStr string, timezoneCache map[string]*time.Locati
 			}
 			tzName, tzOffset := z.Zone()
 			location = time.FixedZone(tzName, tzOffset)
-			timezoneCache[tzStr] = location
+			// tzStr points into the record's backing buffer, which is pooled and overwritten by later records: the key must own its bytes
+			timezoneCache[strings.Clone(tzStr)] = location
 		}
 	} else {
 		location = time.Local
